@@ -454,7 +454,7 @@ pub fn run(run: &Run) {
          items under one key with asymmetric uses, under 4K hash seeds; non-trivial = project with at least one edge",
     );
     let root = work_dir("c17");
-    let seeds = run.tier.pick(16u64, 128u64);
+    let seeds = run.tier.pick(16u64, 256u64);
     // Shapes: all 2-template relations and a spread of 3-template relations.
     let mut shapes: Vec<(usize, u32)> = (0..16u32).map(|e| (2usize, e)).collect();
     let step = run.tier.pick(37, 5);
